@@ -764,8 +764,8 @@ def check_C17(tier, seed, rest):
     cov = {"evaluations": r["strip_cases"] + r["history_steps"], "distinct_nontrivial": r["strip_cases"] + r["histories"], "samples": r["samples"],
            "tlc_states": r["tlc"]["distinct"], "strip_cases": r["strip_cases"], "file_histories": r["histories"], "file_history_steps": r["history_steps"],
            "rule": "Cli.tla part 1: enum sources = derive lists (every sequence of 1..3 distinct entries of {Debug, Logos, Clone, serde::Serialize, logos::Logos, ::logos::Logos, ::core::fmt::Debug}, separated by comma-space or by a bare comma, with/without trailing comma, optional second derive attribute) "
-                   "x other attributes (doc+repr before, cfg_attr after, allow between logos attributes) x 0..2 #[logos] attributes, over a fixed body with variant docs, cfg, two regex attributes on one variant and a field attribute; "
-                   "the real binary's stdout must parse as Rust, its first item must equal the expected stripped enum (derive lists compared as lists of paths) and the rest must equal generate()'s output. "
+                   "x other attributes (doc+repr before, cfg_attr after, allow between logos attributes) x 0..2 #[logos] attributes x LF / CRLF line endings, over a fixed body with variant docs, cfg, two regex attributes on one variant, a field attribute and two string literals containing a line break; "
+                   "the real binary's stdout must parse as Rust, its first item must equal the expected stripped enum (derive lists compared as lists of paths) and the rest must equal generate()'s output for the LF text (what rustc hands to the derive). "
                    "Part 2: every history of write/check/tamper/crlf/delete up to the bound, exit status and file state compared after every step; distinct = distinct sources + distinct histories"}
     finish("C17", tier, seed, "exploration", cov, r["findings"], t0, ["the enum body is fixed; only attribute placement and derive lists vary", "--format (rustfmt) is not exercised"])
 
